@@ -584,3 +584,15 @@ package trend
 //@ use mul_assoc(lam, c[j], 2)
 //@ use mul_lin(lam, h[j] + l[j], c[j] * 2)
 //@ use div_scale(lam, h[j] + l[j] + c[j] * 2, 4)
+//@ lemma pcS_pscale(c stream, d stream, lam real, j int)
+//@ requires[C18] lam > 0 && d[j] == lam * c[j] && d[j+1] == lam * c[j+1]
+//@ ensures[C18] pcS(d)[j] == lam * pcS(c)[j] && apcS(d)[j] == lam * apcS(c)[j]
+//@ use mul_lin(lam, c[j+1], c[j])
+//@ use abs_scale(lam, c[j+1] - c[j])
+//@ lemma tsiS_pscale(c stream, d stream, lam real, P1 int, m1 real, P2 int, m2 real, n int, k int)
+//@ requires[C18] lam > 0 && P1 >= 1 && P2 >= 1 && k >= 0 && k + P1 + P2 - 1 < n && (forall j :: 0 <= j && j < n ==> d[j] == lam * c[j]) && emaS(emaSt(apcS(c), P2, m2), P1, m1, k) != 0
+//@ ensures[C18] tsiS(d, P1, m1, P2, m2)[k] == tsiS(c, P1, m1, P2, m2)[k]
+//@ use[cond] pcS_pscale(c, d, lam, _)
+//@ use emaEma_pscale(pcS(c), pcS(d), lam, P2, m2, P1, m1, k)
+//@ use emaEma_pscale(apcS(c), apcS(d), lam, P2, m2, P1, m1, k)
+//@ use ratio_scale(lam, emaS(emaSt(pcS(c), P2, m2), P1, m1, k), emaS(emaSt(apcS(c), P2, m2), P1, m1, k))
